@@ -2,6 +2,7 @@ package seq
 
 import (
 	"context"
+	"encoding/binary"
 	"crypto/ecdsa"
 	"crypto/elliptic"
 	"crypto/sha256"
@@ -576,6 +577,15 @@ func (w *World) exec(c core.Cmd) bool {
 		l, inc := in.log, in.inc
 		for i := 0; i < w.prof.Bulk; i++ {
 			it := w.makeItem(500000+i, 3)
+			if w.prof.BulkBytes > 0 {
+				br := core.NewRand(core.Mix(w.sim.Seed, 0xb16+uint64(i)))
+				big := make([]byte, w.prof.BulkBytes)
+				for j := 0; j+8 <= len(big); j += 8 {
+					binary.LittleEndian.PutUint64(big[j:], br.Uint64())
+				}
+				it.Entry.Certificate = append([]byte(fmt.Sprintf("big-junk-%d-", i)), big...)
+				it.Key = independentCacheKey(it.Entry)
+			}
 			it.ID = -3000000 - i
 			w.orc.itemsByKey[it.Key] = it
 			w.smu.Lock()
